@@ -25,7 +25,7 @@ ASSUMPTIONS = ["loopback TCP; per-recv caps at the socket proxy model segmentati
                "gaps are kept below the configured network timeout (the property's quantifier)"]
 WORKERS = {"quick": 16, "thorough": 16}
 REQUIRE = {"plans_with_cut_inside_pdu": 100, "close_cases": 50, "requestor_role_cases": 20, "gap_cases": 5,
-           "framed_pdus_compared": 1000, "wire_gap_cases": 4}
+           "framed_pdus_compared": 1000, "wire_gap_cases": 4, "concurrent_association_cases": 5, "concurrent_associations_compared": 15}
 CT = "1.2.840.10008.5.1.4.1.1.2"
 VER = "1.2.840.10008.1.1"
 
@@ -146,6 +146,8 @@ def gen_cases(tier, seed):
         lc = conv_len("C")
         for k in range(0, lc + 1, 2):
             cases.append({"kind": "close", "conv": "C", "offset": k, "tag": "close"})
+    for i in range(6 if tier == "quick" else 120):
+        cases.append({"kind": "concurrent", "k": rng.choice([3, 4, 6]), "max_len": rng.choice([256, 1024, 4096]), "i": i, "tag": "concurrent"})
     return cases
 
 
@@ -447,8 +449,90 @@ def _ended_early(complete, framed):
     return bool(framed) and framed[-1][0] in (5, 7)
 
 
+def run_concurrent_acceptors(case, counters):
+    """K scripted requestors talk to ONE acceptor AE at the same time (tiny switch interval), each with its own byte pattern: what each
+    acceptor association hands to its decoder must be exactly what ITS peer sent."""
+    import sys
+    viol = []
+    taps.reset()
+    K = case["k"]
+    store_log = []
+    ae = harness.make_ae(timeouts=(5.0, 5.0, 6.0, 5.0), supported=[VER, CT])
+    ae.maximum_associations = K + 2
+    server, port = harness.start_server(ae, _handlers(store_log))
+    sent, answers, errors = {}, {}, []
+
+    def peer_thread(k):
+        p = None
+        try:
+            p = vpeer.Peer.connect(port)
+            pcs = [{"id": 1, "abs": VER, "ts": [ps38.IMPLICIT_LE]}, {"id": 3, "abs": CT, "ts": [ps38.IMPLICIT_LE]}]
+            out = [ps38.encode(ps38.make_rq(pcs=pcs, maxlen=16382, calling="PEER%d" % k))]
+            n = 12000 + 1500 * k
+            filler = bytes((i * 7 + k * 13) % 251 for i in range(n))
+            ds = struct.pack("<HHI", 0x7FE0, 0x10, n) + filler
+            cmd = cmdset.make("C-STORE-RQ", AffectedSOPClassUID=CT, MessageID=20 + k, Priority=0,
+                              AffectedSOPInstanceUID="1.2.3.4.5.%d" % (k + 1), CommandDataSetType=0)
+            for v in p.dimse_pdus(3, cmd, ds, max_len=case["max_len"]):
+                out.append(ps38.encode(v))
+            for v in p.dimse_pdus(1, cmdset.c_echo_rq(40 + k)):
+                out.append(ps38.encode(v))
+            out.append(ps38.encode({"type": "RELRQ"}))
+            sent[k] = out
+            p.send_raw(out[0])
+            got = [p.recv_pdu(8.0)]
+            p.send_raw(b"".join(out[1:-1]))
+            got.append(p.recv_dimse(10.0)); got.append(p.recv_dimse(10.0))
+            p.send_raw(out[-1])
+            got.append(p.recv_pdu(8.0))
+            answers[k] = [(x or {}).get("type") for x in got]
+        except Exception as exc:
+            errors.append("peer %d: %r" % (k, exc))
+        finally:
+            if p:
+                p.close()
+    old = sys.getswitchinterval()
+    sys.setswitchinterval(1e-5)
+    try:
+        ths = [threading.Thread(target=peer_thread, args=(k,), daemon=True) for k in range(K)]
+        for t in ths:
+            t.start()
+        for t in ths:
+            t.join(40.0)
+    finally:
+        sys.setswitchinterval(old)
+    quiet, _ = taps.wait_quiet(8.0)
+    by_assoc = {}
+    for (_, aid, b) in taps.State.framed:
+        by_assoc.setdefault(aid, []).append(b)
+    matched = 0
+    for aid, framed in by_assoc.items():
+        k = next((k_ for k_, o in sent.items() if framed and framed[0] == o[0]), None)
+        if k is None:
+            continue
+        matched += 1
+        counters["framed_pdus_compared"] = counters.get("framed_pdus_compared", 0) + len(framed)
+        if framed != sent[k]:
+            j = next((i for i in range(min(len(framed), len(sent[k]))) if framed[i] != sent[k][i]), min(len(framed), len(sent[k])))
+            viol.append({"key": "framed-sequence-differs|acceptor|concurrent-associations",
+                         "detail": "association of PEER%d: decoder received %d PDUs, its peer sent %d; first difference at PDU #%d (%d associations "
+                                   "receiving at the same time)" % (k, len(framed), len(sent[k]), j, K)})
+        if answers.get(k) != ["AC", "DIMSE", "DIMSE", "RELRP"]:
+            viol.append({"key": "conversation-broken|acceptor|concurrent-associations", "detail": "PEER%d saw %r" % (k, answers.get(k))})
+    counters["concurrent_association_cases"] = 1
+    counters["concurrent_associations_compared"] = matched
+    harness.stop_ae(ae)
+    obs = {"associations": K, "matched": matched, "errors": errors[:3], "answers": answers}
+    return viol, obs
+
+
 def run_case(case):
     counters = {}
+    if case["kind"] == "concurrent":
+        viol, obs = run_concurrent_acceptors(case, counters)
+        return {"key": sha(["concurrent", case["k"], case["max_len"], case["i"]]), "nontrivial": counters.get("concurrent_associations_compared", 0) >= 2,
+                "sample": {"case": case, "observed": obs}, "violations": viol, "counters": counters,
+                "inconclusive": None if counters.get("concurrent_associations_compared", 0) >= 2 else "fewer than two associations completed: %r" % obs["errors"]}
     if case["kind"] == "acceptor":
         viol, obs = run_acceptor(case, counters)
     elif case["kind"] == "requestor":
